@@ -493,7 +493,7 @@ def catsort_jobs(Job, cfg=CFG_NDEBUG, tier="quick"):
 
 
 SPACE_GROUP = ["sector_count", "CatalogEntry_metadata_byte", "CatalogEntry_metadata_word", "CatalogEntry_start_sector", "CatalogEntry_file_length", "CatalogEntry_last_sector",
-               "space_entry_gap", "space_start_sec_of_next", "Catalog_map_sectors",
+               "space_entry_gap", "space_start_sec_of_next", "Catalog_map_sectors", "Geometry_total_sectors", "FileSystem_disc_sector_count",
                "catalog_sectors_for_format", "data_sectors_reserved_for_catalog", "space_maybe_gap", "space_add_initial_gap"]
 
 
@@ -505,6 +505,7 @@ def space_jobs(Job, cfg=CFG_NDEBUG, tier="quick"):
             J("space_maybe_gap", "h_maybe_gap", ["space_maybe_gap"]),
             J("space_start_sec_of_next", "h_start_sec_of_next", ["space_start_sec_of_next"], replace=["CatalogEntry_start_sector"],
               cbmc=["--unwindset", "space_start_sec_of_next_wrapped_for_contract_checking.0:4,space_start_sec_of_next.0:4", "--unwinding-assertions"]),
+            J("disc_sector_count", "h_disc_sector_count", ["FileSystem_disc_sector_count"], replace=["Geometry_total_sectors"], solver="portfolio"),
             J("space_entry_gap", "h_entry_gap", ["space_entry_gap"], replace=["space_maybe_gap", "CatalogEntry_last_sector", "CatalogEntry_start_sector", "CatalogEntry_file_length"]),
             J("catalog_map_sectors", "h_map_sectors", ["Catalog_map_sectors"], replace=["CatalogEntry_last_sector", "CatalogEntry_start_sector", "CatalogEntry_file_length", "sector_count"], loops=True),
             J("space_add_initial_gap", "h_add_initial_gap", ["space_add_initial_gap"],
